@@ -13,6 +13,8 @@ use std::cell::{Cell, RefCell};
 use std::sync::Arc;
 
 pub const OVERRUN_MSG: &str = "plv-step-budget-overrun";
+/// step budget of one API call made by a free-running (E2 / Miri / TSan) thread
+pub const FREE_RUN_CALL_BUDGET: u64 = 3_000_000;
 
 #[derive(Clone, Copy, Debug)]
 pub struct Ev {
@@ -107,6 +109,8 @@ pub fn sites_take() -> Vec<(Op, u32)> {
 pub fn delay_begin(seed: u64, prob_per_1024: u32) {
     DELAY_RNG.with(|r| *r.borrow_mut() = Rng::new(seed));
     DELAY_PROB.with(|c| c.set(prob_per_1024));
+    STEPS.with(|c| c.set(0));
+    BUDGET.with(|c| c.set(FREE_RUN_CALL_BUDGET));
     set_mode(Mode::Delay);
 }
 
@@ -155,6 +159,16 @@ fn hook_fn(site: &Site) {
         What::Delay => {
             if site.after {
                 return;
+            }
+            // free-running threads are bounded too: a call that takes more than its step
+            // budget is cut (a verdict of "inconclusive", never a hang of the check)
+            let n = STEPS.with(|c| {
+                let n = c.get() + 1;
+                c.set(n);
+                n
+            });
+            if n > BUDGET.with(|c| c.get()) {
+                std::panic::panic_any(OVERRUN_MSG);
             }
             let p = DELAY_PROB.with(|c| c.get());
             if p == 0 {
